@@ -32,3 +32,11 @@ Example same_qualname_ordered :
   cmp_ok tbl FNum twin_a = true /\ cmp_ok tbl FNum twin_b = true /\
   eq twin_a twin_b = false /\ lt tbl twin_a twin_b = Ok true /\ lt tbl twin_b twin_a = Ok false.
 Proof. vm_compute. repeat split; reflexivity. Qed.
+
+(* dict keys: int, the same int written as bool / float (given to the model as the int), non-integral floats (KFlt h e = (2h+1)/2^e) and
+   strings, ordered numbers first: {1.5: 1, 'a': 1, 1: 2} < {1: 2, 2.5: 0} (first keys 1 = 1, values equal; then 1.5 < 2.5) *)
+Example lt_float_keys :
+  cmp_ok tbl FNum (PDict false [(KFlt 1 1, PInt 1); (KStr [97%N], PInt 1); (KInt 1, PInt 2)]) = true /\
+  lt tbl (PDict false [(KFlt 1 1, PInt 1); (KStr [97%N], PInt 1); (KInt 1, PInt 2)])
+         (PDict false [(KInt 1, PInt 2); (KFlt 2 1, PInt 0)]) = Ok true.
+Proof. vm_compute. split; reflexivity. Qed.
